@@ -174,6 +174,76 @@ fn run_varsha<const M: usize>(sc: &J, out: &mut dyn Write) {
     crate::c05::run_with_faults(&c, &sc2, extra, out);
 }
 
+/// A sponge session run in-circuit: absorbed elements and squeezed outputs are exposed.
+#[derive(Clone, Debug)]
+pub struct SpongeCircuit {
+    pub len: i64,
+    pub ops: Vec<J>,
+}
+
+impl Circuit<F> for SpongeCircuit {
+    type Config = <PoseidonChip<F> as FromScratch<F>>::Config;
+    type FloorPlanner = SimpleFloorPlanner;
+    type Params = ();
+    fn without_witnesses(&self) -> Self {
+        self.clone()
+    }
+    fn configure(meta: &mut ConstraintSystem<F>) -> Self::Config {
+        let c = meta.instance_column();
+        let i = meta.instance_column();
+        PoseidonChip::configure_from_scratch(meta, &[c, i])
+    }
+    fn synthesize(&self, config: Self::Config, mut l: impl Layouter<F>) -> Result<(), Error> {
+        use midnight_circuits::instructions::SpongeInstructions;
+        let native_chip = NativeChip::new_from_scratch(&config.0);
+        let chip = PoseidonChip::new_from_scratch(&config);
+        let l = &mut l;
+        let mut st = chip.init(l, if self.len < 0 { None } else { Some(self.len as usize) })?;
+        for op in self.ops.iter() {
+            if op[0] == "absorb" {
+                let xs: Vec<Value<F>> = op[1].as_array().unwrap().iter().map(|x| Value::known(k_of_big(&big_of_nat(x)))).collect();
+                let ax: Vec<AssignedNative<F>> = native_chip.assign_many(l, &xs)?;
+                chip.absorb(l, &mut st, &ax)?;
+            } else {
+                let o = chip.squeeze(l, &mut st)?;
+                note('n', 1);
+                native_chip.constrain_as_public_input(l, &o)?;
+            }
+        }
+        native_chip.load_from_scratch(l)?;
+        chip.load_from_scratch(l)
+    }
+}
+
+fn sponge_session(sc: &J, out: &mut dyn Write) {
+    use midnight_circuits::instructions::SpongeCPU;
+    let len = sc["len"].as_i64().unwrap_or(-1);
+    let ops: Vec<J> = sc["ops"].as_array().cloned().unwrap_or_default();
+    let f = |x: &F| nat_of_big(&x.to_biguint());
+    // off-circuit
+    let cpu = std::panic::catch_unwind(std::panic::AssertUnwindSafe(|| {
+        let mut st = <PoseidonChip<F> as SpongeCPU<F, F>>::init(if len < 0 { None } else { Some(len as usize) });
+        let mut outs = vec![];
+        for op in ops.iter() {
+            if op[0] == "absorb" {
+                let xs: Vec<F> = op[1].as_array().unwrap().iter().map(|x| k_of_big(&big_of_nat(x))).collect();
+                <PoseidonChip<F> as SpongeCPU<F, F>>::absorb(&mut st, &xs);
+            } else {
+                outs.push(f(&<PoseidonChip<F> as SpongeCPU<F, F>>::squeeze(&mut st)));
+            }
+        }
+        outs
+    }));
+    match cpu {
+        Ok(outs) => writeln!(out, "{}", json!({"ev":"Sponge","impl":"cpu","len":len,"ops":ops,"outs":outs,"status":"ok"})).unwrap(),
+        Err(_) => writeln!(out, "{}", json!({"ev":"Sponge","impl":"cpu","len":len,"ops":ops,"outs":[],"status":"panic"})).unwrap(),
+    }
+    // in-circuit
+    let c = SpongeCircuit { len, ops: ops.clone() };
+    let r = gad::run_game(&c, sc["k"].as_u64().unwrap_or(9) as u32, None);
+    writeln!(out, "{}", json!({"ev":"Sponge","impl":"circuit","len":len,"ops":ops,"outs":gad::nats_json(&r.exposed),"status":r.status,"detail":r.detail})).unwrap();
+}
+
 fn poseidon_consts() -> J {
     let f = |x: &F| nat_of_big(&x.to_biguint());
     json!({"ev":"PoseidonConstants",
@@ -194,6 +264,7 @@ pub fn main(args: &[String]) -> i32 {
                 256 => run_varsha::<256>(sc, &mut out),
                 _ => run_varsha::<192>(sc, &mut out),
             },
+            "sponge" => sponge_session(sc, &mut out),
             "poseidon_cpu" => {
                 // off-circuit: fixed-length hash, and the transcript sponge (no length, padding with the count)
                 let xs: Vec<F> = sc["inputs"].as_array().unwrap().iter().map(|x| k_of_big(&big_of_nat(x))).collect();
